@@ -330,6 +330,22 @@ theorem table_path_models_agree (l1raw kib : ℕ) (hfl : CoreFloatOk l1raw kib) 
     (generatePrimes_primesIn l1raw start stop kib (by unfold umax at hstop; omega) hk hk2
       (hfl start stop (by unfold umax at hstop; omega)))
 
+/-- `nthPrime.cpp`'s `countPrimes(a, b)` calls, with the REAL multi-threaded count over the real counting core (any thread count `t`, any
+    `isqrt` outcome `isq b`) in place of the exact count `primeCnt` of `nth_prime_correct_closed`: the same result, for every iterator
+    environment `e`. The count is the real one for every `b < 2^64-1`; `b = 2^64-1` (reached when `nthPrimeApprox` saturates) is the
+    documented gap of `parallel_count_total` (`align(start) + 1` wraps) and is answered by the exact count here. -/
+theorem nth_prime_real_count (e : Env) (l1raw kib : ℕ) (hfl : CountFloatOk l1raw kib) (hk : 16 ≤ kib) (hk2 : kib ≤ 8192)
+    (isq : ℕ → ℕ) (t : ℕ) (nf : NthFloats) (n : ℤ) (start : ℕ) :
+    nthPrime e nf (fun a b => if b < umax then parCount (sieveCount (countCoreTo l1raw kib (2 ^ 64))) (isq b) a b t
+      else primeCnt a b) n start = nthPrime e nf primeCnt n start := by
+  have h : (fun a b => if b < umax then parCount (sieveCount (countCoreTo l1raw kib (2 ^ 64))) (isq b) a b t
+      else primeCnt a b) = primeCnt := by
+    funext a b
+    by_cases hb : b < umax
+    · rw [if_pos hb]; exact (parallel_count_primes_closed l1raw kib hfl hk hk2).2.2 (isq b) a b t hb
+    · rw [if_neg hb]
+  rw [h]
+
 /-! ### non-vacuity (tests, labelled as such): the `_50` forms have no hypothesis but the sieve-size range — instantiated at 256 KiB,
     32 KiB L1, batches of 2 / 64, all iterator floats 0. The sieving core is NOT kernel-evaluated: concrete outputs are DERIVED through
     the theorems (real core = abstract cursor = reference core, the latter evaluated). -/
@@ -348,7 +364,7 @@ example : run (coreEnvTo ⟨fun _ => 0, fun _ => 0, fun _ => 0, fun _ => 0⟩ (f
   have hv : ∀ op ∈ [Op.next, .prev, .prev, .jump 3 0, .prev, .prev, .prev, .next], op.valid := by
     intro op hop
     simp only [List.mem_cons, List.not_mem_nil, or_false] at hop
-    rcases hop with rfl | rfl | rfl | rfl | rfl | rfl | rfl | rfl <;> first | trivial | decide
+    rcases hop with rfl | rfl | rfl | rfl | rfl | rfl | rfl | rfl <;> trivial
   rw [history_correct_closed_50 _ _ 32768 256 (by norm_num) (by norm_num) 10 0 (by decide) (by decide) _ hv,
     ← C18.history_correct (refEnv ⟨fun _ => 0, fun _ => 0, fun _ => 0, fun _ => 0⟩ (fun _ => 2)) (refEnv_spec _ _) 10 0
       (by decide) (by decide) _ hv]
@@ -411,3 +427,4 @@ end Pc.C18ClosedHist
 #print axioms Pc.C18ClosedHist.prime_generator_table_path_closed
 #print axioms Pc.C18ClosedHist.prime_generator_table_path_closed_50
 #print axioms Pc.C18ClosedHist.table_path_models_agree
+#print axioms Pc.C18ClosedHist.nth_prime_real_count
